@@ -93,6 +93,8 @@ C09Parsed(p, h, E, S, line) ==
                     ws == { i \in DOMAIN tok.words : tok.words[i].s = ss.s }
                 IN JoinAll(<<
                      Chk(ws # {}, line, "C09", "span does not start at the first character of a title word"),
+                     \* independent of the recorded word bounds: a title word begins with a letter or digit
+                     Chk(IsAlnum(p.plain[sp.a + 1]), line, "C09", "span does not start at a letter or digit"),
                      Chk(\A i \in ws : ss.e <= tok.words[i].e, line, "C09", "span runs past the end of its word"),
                      IF Has(E, "qtok") /\ QHasWords(E)
                        THEN Chk(ss.e - ss.s <= (Last(E.qtok.words).e - E.qtok.words[1].s) + 1, line, "C05",
@@ -128,7 +130,9 @@ C09Alt(E, S, line) ==
          IF ~MarkersParseable(L, R) \/ Has(A, "panic") THEN NoRes
          ELSE JoinAll([i \in DOMAIN A.hits |->
                 LET h == A.hits[i] IN
-                IF HasRecS(S, h.id) /\ SeqRange(RecOfS(S, h.id).title) \cap (SeqRange(L) \cup SeqRange(R)) = {}
+                \* neither the stored title nor its composed form (what the plain returned title must be) contains a marker character
+                IF HasRecS(S, h.id) /\ (SeqRange(RecOfS(S, h.id).title) \cup SeqRange(RecOfS(S, h.id).tok.source))
+                                         \cap (SeqRange(L) \cup SeqRange(R)) = {}
                   THEN C09Parsed(ParseWith(h.title, L, R), h, E, S, line)
                   ELSE NoRes])])
 
